@@ -16,7 +16,9 @@ ExitsBadly  == {"exit1", "exit255", "sigkill", "sigsegv", "replykill", "replyabr
 \* stops in the middle of a multi-byte character
 BadStrings  == {"badutf8", "badutf8cut", "badcontents", "badcontentsmid", "badmsg", "badmsgcut", "badsource", "badsourcecut"}
 BadReply    == {"trunc1", "truncmid", "trunclast", "truncat", "badbool", "badlevel", "hugesize", "empty"} \cup BadStrings
-Catalogue   == OkLike \cup NotStarted \cup ExitsBadly \cup BadReply \cup {"stderr0", "noread"}
+\* "closeflood": closes its stdin at once without exiting (so that a request larger than a pipe buffer cannot be written),
+\* then writes more than a pipe buffer of output that is no reply
+Catalogue   == OkLike \cup NotStarted \cup ExitsBadly \cup BadReply \cup {"stderr0", "noread", "closeflood"}
 ReadsAll(b) == b \in OkLike \cup ExitsBadly \cup BadReply \cup {"stderr0"}
 NFilesOf(b) == CASE b \in {"ok1", "okinfo", "okwarn", "oksource"} -> 1 [] b = "ok2" -> 2 [] OTHER -> 0
 \* how many reply chunks a behaviour writes before exiting
@@ -26,7 +28,8 @@ ReplyChunks(b) == CASE b \in OkLike \cup BadStrings \cup {"badbool", "badlevel",
 
 \* "err_256": exactly 256 errors in one file (an exit status is one byte wide)
 ErrClasses == {"err_io", "err_syntax", "err_attr", "err_type", "err_cycle", "err_redef", "err_rule", "err_256"}
-Classes    == {"clean", "warn"} \cup ErrClasses
+\* "big": a clean program whose request is larger than a pipe buffer (4000 structs, about 250 KiB)
+Classes    == {"clean", "warn", "big"} \cup ErrClasses
 \* the file a generator replies with may exist already: identical (left untouched), different, or sharing a prefix with the
 \* new content - longer (the new content followed by more) or shorter (a proper prefix of it); only "identical" may be skipped
 OutDirs    == {"absent", "given", "unusable", "identical", "different", "longer", "shorter"}
